@@ -3,8 +3,9 @@
     callback) has an enabled step in EVERY state, with no premise about any caller: slow, timed
     out, abandoned requests and any number of duplicates cannot matter. [tk] ranges over the
     adapter and the NATS transport. *)
-From Coq Require Import ZArith List.
+From Coq Require Import ZArith List String.
 From FV Require Import Model.Registry Proofs.RegistryProofs.
+From FV Require Gen.CtxLockSites Model.LockPaths Proofs.LockPathsProofs.
 Import ListNotations.
 Open Scope Z_scope.
 
@@ -68,3 +69,25 @@ Proof.
     |intros evs' s' H; eapply wedged_forever; [|exact H]; eexists 0%nat, _, _, _; vm_compute; repeat split]).
 Qed.
 Print Assumptions c06_reader_can_wedge_refuted.
+
+(** the registry never runs code of a caller and never blocks on a channel while it holds its mutex
+    (read or write): on every control-flow path of Register / Unregister / Execute / dispatch AS THEY
+    ARE IN lib/go/registry.go NOW (Gen/CtxLockSites.v is regenerated from the source on every run), at
+    each call of a method of a caller-supplied FContext, each function handed one and each channel
+    send, the mutex is not held. A request whose context is slow to answer, or whose result channel is
+    not taken, therefore holds up neither the reader's lookup nor another request's registration. *)
+Theorem c06_nothing_foreign_under_the_registry_lock :
+  forall name paths p pre post,
+    In (name, paths) CtxLockSites.registry_foreign -> In p paths ->
+    p = pre ++ CtxLockSites.FForeign :: post ->
+    LockPaths.fheld false pre = false.
+Proof. exact (LockPathsProofs.all_foreign_ok_spec _ (eq_refl : LockPaths.all_foreign_ok CtxLockSites.registry_foreign = true)). Qed.
+Print Assumptions c06_nothing_foreign_under_the_registry_lock.
+
+(** not vacuous: Register does ask the context (before it locks) and dispatch does send (after it unlocked) *)
+Example c06_foreign_operations_exist :
+  existsb (fun m => andb (String.eqb (fst m) "fRegistryImpl.Register"%string) (existsb LockPaths.has_foreign (snd m)))
+          CtxLockSites.registry_foreign = true
+  /\ existsb (fun m => andb (String.eqb (fst m) "fRegistryImpl.dispatch"%string) (existsb LockPaths.has_foreign (snd m)))
+             CtxLockSites.registry_foreign = true.
+Proof. split; vm_compute; reflexivity. Qed.
